@@ -1,5 +1,7 @@
 """Hypothesis strategies for programs (config + symbolic ops), organised in profiles that
 force the interesting classes by construction (no assume/filter)."""
+import os
+
 from hypothesis import strategies as st
 
 I = st.integers(0, 999)
@@ -177,14 +179,18 @@ def ptedge(cfg=None, reopen_ok=False):
     write after each, so that the table size steps through the window around the boundary one record at a time."""
     c = cfg if cfg is not None else cfg_st()
 
-    def build(length, extra, steps, lead, mids):
+    def build(length, extra, steps, lead, mids, dup=0):
         rec = 8 + length + (length % 2)
         k0 = (4096 - 10) // rec                # this many records still fit in 4096 bytes together with the root's
         jl = {12: 2, 14: 3, 16: 4}[rec]         # Joliet records (8 + 2 * len) of the same size
         ops = []
+        if dup == 1:
+            ops.append({'k': 'dup_pvd'})           # a duplicate PVD that exists *before* the table crosses the boundary
         for i in range(k0 - 2 + extra):
             ops.append({'k': 'add_dir', 'd': 0, 'ns': 7, 'sz': 0, 'rsz': 0, 'usz': 0, 'lead': lead, 'salt': i, 'mode': None, 'reuse': 0,
                         'xl': {'iso': length, 'rr': 6, 'jol': jl, 'udf': 6}})
+        if dup == 2:
+            ops.append({'k': 'dup_pvd'})
         ops.append({'k': 'write'})
         for j, s_ in enumerate(steps):
             if s_ == 0:
@@ -200,7 +206,7 @@ def ptedge(cfg=None, reopen_ok=False):
     if reopen_ok:
         mid_choices.append(reopen)
     return program(c, st.builds(build, st.sampled_from([4, 5, 6, 7, 8, 8]), st.integers(0, 6), st.lists(st.sampled_from([0, 0, 0, 1, 1, 2]), min_size=4, max_size=12),
-                                st.integers(0, 30), st.lists(st.one_of(*mid_choices), min_size=0, max_size=3)))
+                                st.integers(0, 30), st.lists(st.one_of(*mid_choices), min_size=0, max_size=3), st.sampled_from([0, 0, 1, 1, 2])))
 
 
 def any_profile(reopen_ok=False, weights=None, with_manydirs=False):
@@ -217,6 +223,8 @@ def any_profile(reopen_ok=False, weights=None, with_manydirs=False):
         table['samename'] = samename(reopen_ok=reopen_ok)
     if 'ptedge' in w:
         table['ptedge'] = ptedge(reopen_ok=reopen_ok)
+    if 'bootlinks' in w:
+        table['bootlinks'] = bootlinks(reopen_ok=reopen_ok)
     alts = []
     for name, n in w.items():
         s = table[name].map(lambda p, name=name: dict(p, profile=name))
@@ -226,7 +234,7 @@ def any_profile(reopen_ok=False, weights=None, with_manydirs=False):
 
 def with_reopens(base, min_r=1, max_r=3):
     """Insert 1-3 reopen ops at drawn positions (so every program has >= 1 generation)."""
-    def ins(p, positions):
+    def ins(p, positions, styles=()):
         ops = list(p['ops'])
         for k, pos in enumerate(sorted(positions)):
             i = min(len(ops), (pos * (len(ops) + 1)) // 1000 + k)
@@ -235,6 +243,9 @@ def with_reopens(base, min_r=1, max_r=3):
                 # open a re-laid-out ("foreign") version of the image instead (when eligible)
                 ro['relayout'] = [pos, pos // 3, pos // 7, 11, 5, pos % 13, 2, 7]
                 ro['shrinkvs'] = (pos % 2 == 0)
+            elif pos % 3 == 1 and FOREIGN_ON:
+                # open an independently re-mastered version (vf/indep/remaster.py) instead (when eligible)
+                ro['foreign'] = foreign_style(pos * 7919 + (styles[k % len(styles)] if styles else 0))
             ops.insert(i, ro)
         out = []
         for i, o in enumerate(ops):
@@ -242,7 +253,23 @@ def with_reopens(base, min_r=1, max_r=3):
             o['n'] = i + 1
             out.append(o)
         return dict(p, ops=out)
-    return st.builds(ins, base, st.lists(st.integers(150, 850), min_size=min_r, max_size=max_r))
+    return st.builds(ins, base, st.lists(st.integers(150, 850), min_size=min_r, max_size=max_r), st.lists(st.integers(0, 1 << 30), min_size=1, max_size=3))
+
+
+FOREIGN_ON = os.environ.get('VF_FOREIGN', '1') == '1'      # VF_FOREIGN=0 turns the re-mastering stand-in off (triage)
+BUDGETS = [255, 254, 230, 200, 180, 160, 140, 120, 110, 100, 96, 90, 84, 80, 76, 70, 64, 60, 50, 40]
+
+
+def foreign_style(x):
+    """Style of the independent re-mastering, decoded from one drawn integer (so that it shrinks and replays as data)."""
+    def take(n):
+        nonlocal x
+        x, r = divmod(x, n)
+        return r
+    return {'family': take(3), 'su_order': take(5), 'keep_rr': bool(take(2)), 'budget': BUDGETS[take(len(BUDGETS))], 'split_nm': bool(take(2)),
+            'split_sl': bool(take(2)), 'greedy': bool(take(2)), 'gap': take(3), 'zero': take(4), 'pad': (0, 0, 150, 3)[take(4)], 'mki': bool(take(2)),
+            'dfs': bool(take(2)), 'jfirst': bool(take(2)), 'perm': [take(11) + 1 for _ in range(6)]}
+
 
 
 def hybrid(cfg=None, reopen_ok=False):
@@ -324,6 +351,31 @@ def biglinks(cfg=None, reopen_ok=True):
     return program(c, st.builds(lambda a, f, b: a + f + b, first, fill, body))
 
 
+def bootlinks(cfg=None, reopen_ok=True):
+    """A boot file that is also an ordinary multiply-named file: names in two or three namespaces (plus hard
+    links), one or two El Torito entries on it (load size shorter than, equal to or unrelated to the file's
+    length), then its names go away one at a time - the ISO9660 name first - with reopens, re-links, unrelated
+    edits and rm_eltorito in between.  Content referenced by a catalogue entry *and* by names of other
+    namespaces is what neither the links nor the boot profile produces by construction."""
+    c = cfg if cfg is not None else cfg_st(joliet=st.sampled_from([3, 3, 1, None]), udf=st.sampled_from([True, True, False]))
+    bootfile = add_fp(length=st.sampled_from([2748, 10000, 2048, 5000, 70000, 64, 2049]), ck=st.sampled_from([1, 0]), ns=st.sampled_from([7, 7, 3, 5]), d=st.just(0),
+                      file=st.just(False))
+    other = st.lists(st.one_of(add_fp(length=SMALL_LEN, d=st.just(0)), add_dir(d=st.just(0))), min_size=0, max_size=3)
+    on0 = lambda o: dict(o, b=0)
+    boots = st.lists(st.builds(lambda o, ld: dict(o, b=0, media=0, load=ld), add_boot, st.sampled_from([None, None, 4, 1, 8])), min_size=1, max_size=2)
+    prelinks = st.lists(add_link.map(on0), min_size=0, max_size=2)
+    unlink_iso = st.just([{'k': 'rm_link', 'b': 0, 'j': 0}])
+    mid_choices = [st.just([]), st.just([{'k': 'write'}])]
+    if reopen_ok:
+        mid_choices += [st.just([{'k': 'reopen'}]), st.just([{'k': 'reopen'}])]
+    body_choices = [rm_link.map(on0), rm_link.map(on0), add_link.map(on0), add_fp(length=SMALL_LEN), rm_file, rm_boot, add_boot.map(on0), query, write, force, add_dir(d=st.just(0)),
+                    link_cat]
+    if reopen_ok:
+        body_choices += [reopen]
+    body = st.lists(st.one_of(*body_choices), min_size=2, max_size=12)
+    return program(c, st.builds(lambda f, o, b, p, u, m, t: [f] + o + b + p + u + m + t, bootfile, other, boots, prelinks, unlink_iso, st.one_of(*mid_choices), body))
+
+
 def _recipe(target, sizes, picks):
     """Multiset of record sizes (from `sizes`) summing exactly to `target`, steered by drawn integers."""
     reach = [False] * (target + 1)
@@ -397,7 +449,7 @@ def exactfill(cfg=None, reopen_ok=False):
         # drawn insertion order (sorted order on disc is by name anyway)
         adds = [adds[i] for i in sorted(range(len(adds)), key=lambda i: (order[i % len(order)], i))]
         return ops + adds + extra + tail
-    extra = st.lists(add_fp(d=st.sampled_from([0, 1]), length=SMALL_LEN, rsz=st.integers(0, 1), file=st.just(False)), min_size=1, max_size=4)
+    extra = st.lists(add_fp(d=st.sampled_from([0, 1]), length=SMALL_LEN, rsz=st.integers(0, 1), file=st.just(False)), min_size=0, max_size=4)
     tail_choices = [rm_file, rm_file, write, query, add_dir(d=st.sampled_from([0, 1]))]
     if reopen_ok:
         tail_choices.append(reopen)
